@@ -179,7 +179,22 @@ pub fn run(tape: &mut Tape, props: Props, p: &Params, trace_on: bool) -> Outcome
                 cfgs[0].addrs = vec![(IpAddr::V4([10, 0, 0, 1]), 30)];
                 cfgs[1].addrs = vec![(IpAddr::V4([10, 0, 0, 2]), 30)];
             }
+            5 => {
+                // addresses whose 16-bit words add up to almost 0xffff (the pseudo-header sum of some datagram lengths
+                // then lands exactly where the end-around carry has to be folded twice)
+                cfgs[0].addrs = vec![(IpAddr::V4([192, 168, 63, 60]), 24)];
+                cfgs[1].addrs = vec![(IpAddr::V4([192, 168, 63, 61]), 24)];
+            }
             _ => {}
+        }
+    } else if tape.draw(4) == 0 {
+        for (i, c) in cfgs.iter_mut().enumerate() {
+            let mut a = [0u8; 16];
+            a[0] = 0xfd;
+            a[12] = 0x02;
+            a[13] = 0xef;
+            a[15] = 1 + i as u8;
+            c.addrs = vec![(IpAddr::V6(a), 64)];
         }
     }
     let backpressure = tape.draw(4) == 3;
@@ -262,7 +277,12 @@ pub fn run(tape: &mut Tape, props: Props, p: &Params, trace_on: bool) -> Outcome
         last_refused: [false; 2],
         learned: [None, None],
         frag_buf: 1500,
-        bcast: if v6 || subnet >= 31 { None } else { Some(IpAddr::V4([10, 0, 0, (0xffu32 >> (subnet as u32 - 24)) as u8])) },
+        bcast: if v6 || subnet >= 31 {
+            None
+        } else {
+            let b = cfgs[0].addrs[0].0.v4();
+            Some(IpAddr::V4([b[0], b[1], b[2], (0xffu32 >> (subnet as u32 - 24)) as u8]))
+        },
         expect: None,
         incomplete_tx: [None, None],
         pending: [VecDeque::new(), VecDeque::new()],
